@@ -19,28 +19,44 @@ def sh(cmd, cwd=None, timeout=3600):
 
 
 def main():
-    wt, prop, sid = sys.argv[1], sys.argv[2].upper(), sys.argv[3]
+    recheck = sys.argv[1] == '--recheck'      # seedcheck.py --recheck <seed id> <PROPERTY> [others]: the kept patch against the current checks
+    if recheck:
+        sid, prop = sys.argv[2], sys.argv[3].upper()
+        wt = None
+        seed = os.path.join('/verif/seeded', sid)
+    else:
+        wt, prop, sid = sys.argv[1], sys.argv[2].upper(), sys.argv[3]
+        seed = os.path.join(wt, 'seed')
     others = [x.upper() for x in sys.argv[4:]]
-    seed = os.path.join(wt, 'seed')
     patch = os.path.join(seed, 'patch.diff')
     meta = {'property': prop, 'seed_id': sid, 'ran': []}
     def note(what, rc, out):
         meta['ran'].append({'command': what, 'exit': rc, 'tail': out[-600:]})
         print(f'[{rc}] {what}')
+    if recheck:
+        old = json.load(open(os.path.join(seed, 'meta.json')))
+        meta['confirmed'] = old.get('confirmed')
+        meta['confirmation_note'] = old.get('confirmation_note', 'confirmed in the scratch worktree by an earlier run of this script (see earlier_runs / the first meta)')
+        meta['ran'] = [r for r in old.get('ran', []) if 'change applied to /repo' not in r['command'] and '/repo' not in r['command']]
+        return checks_and_keep(meta, prop, others, sid, seed, patch, note)
     # --- 1. confirm in the scratch worktree
     rc, out = sh('git status --short | head -20', wt)
     rc, out = sh('cargo test --offline 2>&1 | grep -E "^test result|FAILED|failed" | head -20', wt)
     tests_ok = 'FAILED' not in out and 'failed;' not in out.replace('0 failed;', '')
     note('cargo test --offline (with the change)', 0 if tests_ok else 1, out)
-    rc_with, out = sh('sh seed/run_demo.sh', wt)
+    rc_with, out = sh('bash seed/run_demo.sh', wt)
     note('seed/run_demo.sh (with the change)', rc_with, out)
     rc, out = sh(f'git apply -R {patch}', wt)
     note('git apply -R patch.diff', rc, out)
-    rc_without, out = sh('sh seed/run_demo.sh', wt)
+    rc_without, out = sh('bash seed/run_demo.sh', wt)
     note('seed/run_demo.sh (without the change)', rc_without, out)
     rc, out = sh(f'git apply {patch}', wt)
     meta['confirmed'] = bool(tests_ok and rc_with != 0 and rc_without == 0)
     print('confirmed:', meta['confirmed'])
+    return checks_and_keep(meta, prop, others, sid, seed, patch, note)
+
+
+def checks_and_keep(meta, prop, others, sid, seed, patch, note):
     # --- 2. the registered checks against the change applied to /repo
     results = {}
     rc, out = sh('git status --short', '/repo')
@@ -83,8 +99,12 @@ def main():
     meta['when'] = time.strftime('%Y-%m-%dT%H:%M:%SZ', time.gmtime())
     for f in os.listdir(seed):
         src = os.path.join(seed, f)
+        if os.path.abspath(seed) == os.path.abspath(dst):
+            break
         if os.path.isfile(src) and os.path.getsize(src) < 2_000_000:
             shutil.copy(src, os.path.join(dst, f))
+        elif os.path.isdir(src) and sum(os.path.getsize(os.path.join(r, x)) for r, _, fs in os.walk(src) for x in fs) < 2_000_000:
+            shutil.copytree(src, os.path.join(dst, f), dirs_exist_ok=True)
     for p, r in results.items():
         if r['violation_line'] and 'replay=' in r['violation_line']:
             rp = r['violation_line'].split('replay=')[1].split(' ')[0]
